@@ -205,6 +205,9 @@ var coverDocs = []string{
 	"# t {title=\"say \\\"hi\\\" to everybody\" data-n=12}\n\n## u {#u .c hidden=true}\n",
 	"# v {title=\"C:\\\\temp\\\\new folder (2)\" tabindex=3}\n",
 	"> `foo\n> bar` x\n\n- `a\r\n  b`\n",
+	// per-line flags of the block parsers: empty list items followed by blank lines, fences with info inside items, setext candidates
+	"- a\n-\n\n  b\n- \n\n- y\n\n1.\n\n   z\n* \n\ntext\n",
+	"-\n\n-\n\n  ```x\n  c\n  ```\n-\n\nt\n===\n",
 }
 
 func TestKnown(t *testing.T)  { kit.RunKnown(t) }
